@@ -18,7 +18,7 @@ PROP = {
     "tags": {"2/3": "memory, 2/3 threads", "52/53": "memory with an expiry pass", "102/103": "redis, 2/3 threads", "152": "redis with an expiry pass"},
     "trivial_tags": [], "min_tags": 4, "reasons": CONC_REASONS,
     "assumptions": ["a lock-delimited critical section executes atomically (Go runtime / memory model; checked by the race detector part, not proved)", "miniredis executes commands one at a time like Redis", "yield points: before every lock acquisition and after every release (memory), before every round-trip (Redis)"],
-    "explanation": "The property's clause is decided directly: for every forced schedule the step results and the final state observed on the REAL store must equal those of SOME sequential ordering of the steps (program order kept) under the PROVED sequential specification (searched exhaustively inside Coq); for Redis the final membership and totals of some sequential ordering of the whole operations; per-shard counters must equal a recount at every instant no writer holds the shard; expiry steps may be skipped only for swarms created after the pass began. Theorems (Proofs/ConcP.v, see Properties/C04.v) cover the interleaving machines: mutual exclusion and step linearizability for the lock protocol, Redis quiescent equivalence (counter round-trips commute), and kernel-checked schedules refuting the Redis expiry races (F10, F11).",
+    "explanation": "The property's clause is decided directly: for every forced schedule the step results and the final state observed on the REAL store must equal those of SOME sequential ordering of the steps (program order kept) under the PROVED sequential specification (searched exhaustively inside Coq); for Redis the final membership and totals of some sequential ordering of the whole operations; per-shard counters must equal a recount at every instant no writer holds the shard; expiry steps may be skipped only for swarms created after the pass began. Theorems (Properties/C04.v): for the memory store a lock machine (Model/Locks.v: acquire / read / commit / release actions over shards guarded by one RWMutex each, acquire disabled while an incompatible holder exists) with, for EVERY schedule of well-locked programs: mutual exclusion and an exact lock table in every reachable state, the fine-grained semantics (compute on a snapshot, write back) producing the SAME run as the atomic reference semantics, the final shards being the one-at-a-time application of the commits in commit order with every thread's results its own, the commit lying inside its critical section (real-time order) and following program order; instantiated with the store's own programs (an announce = count read + selection + update; expiry pass = snapshot + one write step per infohash) and shown to be executions of Model/MemStore.v; for Redis, quiescent equivalence at round-trip granularity (counter round-trips commute), first-round-trip order a permutation respecting program order, and kernel-checked schedules refuting the Redis expiry races (F10, F11).",
 }
 
 def conc_part(chk, quick, thorough):
